@@ -264,6 +264,15 @@ def _encoder_ok(c: ast.Call, mm) -> Tuple[bool, str]:
                 if not ok1:
                     return False, f"definitions at lines {la}/{lb_}: {w1}"
             return True, " | ".join(whys)
+    if mm is not None:
+        # local names for attribute chains (`past = checkpoint.hess_inv`) are followed
+        try:
+            from ..flow import Expander
+            ax_ = Expander(mm.ctx, mm.f, only=lambda v: isinstance(v, (ast.Attribute, ast.Name)))
+            n_ = mm.cfg.node_of(c)
+            c = ast.copy_location(ast.Call(func=c.func, args=[ax_.expand(n_, a, 3) for a in c.args], keywords=[]), c)
+        except Exception:
+            pass
     da, db = _diff_of(c.args[0]), _diff_of(c.args[1])
     if da and db:
         X, G = (mm.X, mm.G) if mm is not None else ("X", "G")
@@ -317,6 +326,16 @@ def rule_cbuse(ctx: Ctx) -> List[Ob]:
                       construct=f"if callback(...): <stop>"))
     # statements depending on the presence of a callback
     for s in walk_no_nested(mm.f.node):
+        if isinstance(s, ast.If) and isinstance(s.test, ast.BoolOp) and isinstance(s.test.op, ast.And) and \
+                any(any(c is y for y in ast.walk(s.test)) for c in mm.callback_calls) and \
+                any(isinstance(v, ast.Compare) and src(v).replace(" ", "") in ("callbackisnotNone",) for v in s.test.values):
+            # merged form `if callback is not None and <...> and callback(...)`: the operands before the call only read
+            others = [v for v in s.test.values if not any(any(c is y for y in ast.walk(v)) for c in mm.callback_calls)]
+            okm = all(not any(isinstance(y, (ast.Call, ast.NamedExpr)) for y in ast.walk(v)) for v in others)
+            obs.append(ob("CBUSE", "presence of a callback changes nothing but the call itself", mm.f, s, okm,
+                          "the presence test guards the callback stop test in one condition" if okm else
+                          "the merged condition evaluates something with effects before the callback", construct=f"if {short(s.test, 60)}: ..."))
+            continue
         if isinstance(s, ast.If) and any(isinstance(x, ast.Name) and x.id == "callback" for x in ast.walk(s.test)) \
                 and not any(s.test is c or any(c is y for y in ast.walk(s.test)) for c in mm.callback_calls):
             inner = [x for x in s.body if not (isinstance(x, ast.If) and any(
@@ -348,9 +367,15 @@ def rule_coh(ctx: Ctx) -> List[Ob]:
         if not m.how.startswith("attribute store"):
             mut_at.setdefault(m.node, set()).add(m.target)
 
+    from .consts import factor_valued_names
+    FV = factor_valued_names(mm.f)
+
+    def is_factor(e: ast.expr) -> bool:
+        return src(e) == f"{sf}.scaling_factor" or (isinstance(e, ast.Name) and e.id in FV)
+
     def scaled_self(v: ast.expr, name: str) -> bool:
         return isinstance(v, ast.BinOp) and isinstance(v.op, ast.Mult) and \
-            {src(v.left), src(v.right)} == {name, f"{sf}.scaling_factor"}
+            ((src(v.left) == name and is_factor(v.right)) or (src(v.right) == name and is_factor(v.left)))
 
     def coherent_src(v, kind):
         """is v a value that is coherent with x by construction? kind: 'f' or 'g'"""
@@ -389,7 +414,7 @@ def rule_coh(ctx: Ctx) -> List[Ob]:
                 if v is not None and src(v).startswith("checkpoint.") and src(v).endswith(".fun"):
                     newF = True
                     continue
-                if how == "aug" and isinstance(s, ast.AugAssign) and isinstance(s.op, ast.Mult) and src(s.value) == f"{sf}.scaling_factor":
+                if how == "aug" and isinstance(s, ast.AugAssign) and isinstance(s.op, ast.Mult) and is_factor(s.value):
                     continue
                 if v is not None and scaled_self(v, fn_):
                     continue
@@ -410,7 +435,7 @@ def rule_coh(ctx: Ctx) -> List[Ob]:
                     continue
                 if v is not None and scaled_self(v, gn):
                     continue
-                if how == "aug" and isinstance(s, ast.AugAssign) and isinstance(s.op, ast.Mult) and src(s.value) == f"{sf}.scaling_factor":
+                if how == "aug" and isinstance(s, ast.AugAssign) and isinstance(s.op, ast.Mult) and is_factor(s.value):
                     continue
                 newG = False
         for t in mut_at.get(n, ()):  # in-place writes
